@@ -224,12 +224,53 @@ func famCfgTrunc(t *testing.T, seed int64, steps int) *Cluster {
 		c.Drive(2*time.Second, nil, func() bool { return c.Leader() == A })
 	}
 	if c.Leader() == A {
-		c.Member(A, "remove", map[bool]string{true: "n2", false: "n3"}[A != "n2" && seed%2 == 0], 0, 0)
+		victim := map[bool]string{true: "n2", false: "n3"}[A != "n2" && seed%2 == 0]
+		if seed%3 != 0 {
+			// a voter of the configuration A itself goes by
+			for _, s := range c.byID[A].Raft.VerifState().Latest.Servers {
+				if string(s.ID) != A && s.Suffrage == raft.Voter {
+					victim = string(s.ID)
+				}
+			}
+		}
+		if seed%3 == 1 {
+			c.Drive(200*time.Millisecond, nil, func() bool { return c.byID[A].Raft.CommitIndex() >= c.byID[A].Raft.LastIndex() })
+			c.isolate(A) // the change itself reaches nobody: only A's own idea of the membership lets it commit
+		}
+		c.Member(A, "remove", victim, 0, 0)
 		c.Settle("client")
 		c.Drive(500*time.Millisecond, nil, nil)
 		c.Verify(A)
 		c.Settle("client")
 		c.Drive(200*time.Millisecond, nil, nil)
+	}
+	// A is cut off once more and is asked to write: whatever it acknowledges on its own must still be there
+	// when the others - a majority of the configuration the LOGS prescribe - have elected a leader and written
+	if c.Leader() == A && seed%3 != 0 {
+		if seed%3 != 1 {
+			c.isolate(A)
+		}
+		for i := 0; i < 2; i++ {
+			c.Apply(A, 0)
+			c.Settle("client")
+		}
+		c.Drive(6*opt.Election, nil, func() bool {
+			for _, n := range c.Nodes {
+				if n.Up && n.ID != A && n.Raft.State() == raft.Leader {
+					return true
+				}
+			}
+			return false
+		})
+		for _, n := range c.Nodes {
+			if n.Up && n.ID != A && n.Raft.State() == raft.Leader {
+				c.Apply(n.ID, 0)
+				c.Settle("client")
+			}
+		}
+		c.Drive(200*time.Millisecond, nil, nil)
+		c.healAll()
+		c.Drive(400*time.Millisecond, nil, nil)
 	}
 	c.convergeNoExpect(400 * time.Millisecond)
 	return c
